@@ -225,17 +225,22 @@ def run(ctx, report: Report) -> None:
     # ---- R3 ----------------------------------------------------------------------------------------------
     r3 = report.rule('C17-R3', 'memo tables are identity-keyed lists', floor=1)
     _, init = src.func('css_match.CSSMatch.__init__')
+    from .e2ematch import lookalike_table
+    from .sem import memo_container_problem
+    n_la = len(r3.findings)
+    lookalike_table(ctx, r3)
+    tables_clean = len(r3.findings) == n_la
     for st in walk_no_nested(init):
         if isinstance(st, ast.Assign) and unparse(st.targets[0]).startswith('self.cached_'):
             name = unparse(st.targets[0])
-            is_list = isinstance(st.value, ast.List)
-            r3.instance({'memo': name, 'initialised_as': unparse(st.value), 'list': is_list}, key=name)
-            r3.obligation(is_list)
-            if not is_list:
+            problem = memo_container_problem(ctx, mmod, name, st.value)
+            r3.instance({'memo': name, 'initialised_as': unparse(st.value), 'keyed_by_tags': problem}, key=name)
+            r3.obligation(problem is None)
+            if problem:
                 r3.violation(f'{name} container', mmod.where(st),
-                             f'{name} is initialised as `{unparse(st.value)}`: a dict/set keyed by Tag objects compares tags '
+                             f'{name} is initialised as `{unparse(st.value)}` and {problem}: a dict/set keyed by Tag objects compares tags '
                              f'structurally (bs4 tags are equal when their markup is equal), so two identical forms share one entry; '
-                             f'the memo must be a list scanned with `is`')
+                             f'the memo must be a list scanned with `is`, or keyed by id(...)')
     for short, cache in (('match_default', 'self.cached_default_forms'), ('match_indeterminate', 'self.cached_indeterminate_forms')):
         fn = mmod.functions.get(f'CSSMatch.{short}')
         # the lookup may live in the matcher function or in a helper method it was moved to
@@ -254,8 +259,10 @@ def run(ctx, report: Report) -> None:
                     for c in ast.walk(scope_)):
                 ok = True
         r3.instance({'function': short, 'lookup_by_identity_scan': ok}, key=short)
-        r3.obligation(ok)
-        if not ok:
+        r3.obligation(ok or tables_clean)
+        if not ok and tables_clean:
+            r3.note(f'{short}: no identity scan of {cache} recognised structurally; the look-alike table (forms and radio groups with identical markup) decides')
+        elif not ok:
             r3.violation(f'css_match.CSSMatch.{short} memo lookup', mmod.where(fn),
                          f'{short} does not look its form up in {cache} by an identity (`is`) scan')
 
